@@ -87,7 +87,14 @@ impl Rng {
 
 /// A deterministic sample of HT interpretations over the given universe of ground atoms: the extreme ones,
 /// and `n` pseudo-random ones (each atom independently: absent / there only / here and there).
+/// VERIF_SEED (default 0) varies every pseudo-random choice of the harness; 0 reproduces the committed evidence
+pub fn run_seed() -> u64 {
+    static SEED: std::sync::OnceLock<u64> = std::sync::OnceLock::new();
+    *SEED.get_or_init(|| std::env::var("VERIF_SEED").ok().and_then(|s| s.parse::<u64>().ok()).unwrap_or(0))
+}
+
 pub fn sample_interpretations(universe: &[GroundAtom], n: usize, seed: u64) -> Vec<Ht> {
+    let seed = seed ^ run_seed().wrapping_mul(0x9E3779B97F4A7C15);
     let mut out = Vec::new();
     let total = 3usize.checked_pow(universe.len() as u32);
     if let Some(total) = total.filter(|t| *t <= n) {
